@@ -7,6 +7,7 @@ import (
 	"go/types"
 	"math"
 	"os"
+	"sort"
 	"strings"
 
 	"golang.org/x/tools/go/ssa"
@@ -41,8 +42,8 @@ func init() {
 		Run:      func(c *Ctx) { ruleErr5(c, nil) }})
 	Register(&Rule{ID: "R-ERR-7", Props: []string{"C19"}, Floor: 200,
 		Doc: "arguments of library operations with a panicking precondition are guarded: the len/cap of every make([]T, …), the count of strings.Repeat/bytes.Repeat (≥ 0 and bounded above), the argument of rand.Intn/Int63n (> 0), the precision of strconv.FormatFloat/AppendFloat and big.Float.Text/Append (bounded above: it is the number of digits written) and the argument of Builder/Buffer/slices.Grow (≥ 0 and bounded). " +
-			"A non-constant argument must evaluate to an interval with the required lower bound and a finite upper bound; values of unknown magnitude get bounds only from a dominating comparison of the argument value itself (a guard on its operands is not enough: `high <= low` does not protect `high - low + 1` from overflow)" + e19BoundsAssumption,
-		Controls: []string{"CtlRepeatUnguarded", "CtlMakeOverflow", "CtlRandUnguarded", "CtlPrecUnbounded", "CtlGrowUnbounded"},
+			"A non-constant argument must evaluate to an interval with the required lower bound and a finite upper bound; values of unknown magnitude get bounds only from a dominating comparison of the argument value itself (a guard on its operands is not enough: `high <= low` does not protect `high - low + 1` from overflow). An argument built from sizes is non-negative only if every subtraction in it is ordered; when the argument is a helper's parameter (a padding helper such as (*doc.Writer).WriteSpaces) the subtractions of ALL its static callers count, however many there are, and when they cannot be enumerated (deeper than two helpers, a closure's parameter, a dynamic call) the interval alone has to show the sign" + e19BoundsAssumption,
+		Controls: []string{"CtlRepeatUnguarded", "CtlMakeOverflow", "CtlRandUnguarded", "CtlPrecUnbounded", "CtlGrowUnbounded", "CtlPadHelperSpaces"},
 		Run:      func(c *Ctx) { ruleErr7(c, nil) }})
 	Register(&Rule{ID: "R-ERR-9", Props: []string{"C19"}, Floor: 20,
 		Doc: "every index or slice bound of the form `n - c` (c > 0 constant) in hand-written, non-interactive csvq code is non-negative where it is used (for x[k:n-c] also n - c ≥ k): n ≥ c follows from a dominating test of n, from `0 < len(x)`-style tests of the same slice, from the construction of the slice (literal, append, make) or from a field invariant" + e19BoundsAssumption +
@@ -334,8 +335,13 @@ type e19Diff struct {
 // e19Differences lists the subtractions inside an integer expression: through
 // conversions, Phi, arithmetic, math rounding, and — for a helper's parameter —
 // the arguments of its static callers (2 levels).
-func e19Differences(c *Ctx, v ssa.Value, at ssa.Instruction) []e19Diff {
+func e19Differences(c *Ctx, v ssa.Value, at ssa.Instruction) ([]e19Diff, ssa.Value) {
 	var out []e19Diff
+	// cut: the first parameter behind which the callers' arguments were NOT
+	// enumerated (nesting deeper than two helpers, a closure's parameter, a call
+	// site that is not a static call): the list of subtractions is then incomplete
+	// and "no subtraction found" proves nothing.
+	var cut ssa.Value
 	seen := map[ssa.Value]bool{}
 	var walk func(x ssa.Value, at ssa.Instruction, d, up int)
 	walk = func(x ssa.Value, at ssa.Instruction, d, up int) {
@@ -382,12 +388,23 @@ func e19Differences(c *Ctx, v ssa.Value, at ssa.Instruction) []e19Diff {
 		case *ssa.Parameter:
 			_, idx := e19ParamIndex(y)
 			edges := c.P.RealCallers(y.Parent())
-			if idx < 0 || up >= 2 || len(edges) > 8 || y.Parent().Parent() != nil {
+			if idx < 0 || up >= 2 || y.Parent().Parent() != nil {
+				if cut == nil {
+					cut = y
+				}
 				return
 			}
+			// every caller, however many there are: a padding helper such as
+			// (*doc.Writer).WriteSpaces has dozens, and each passes its own difference
 			for _, ed := range edges {
+				if ed.Caller.Func != nil && ed.Caller.Func.Synthetic != "" && len(c.P.Callers(ed.Caller.Func)) == 0 {
+					continue // promoted-method wrapper that nothing calls
+				}
 				site, ok := ed.Site.(*ssa.Call)
 				if !ok || site.Common().StaticCallee() != y.Parent() || idx >= len(site.Common().Args) {
+					if cut == nil {
+						cut = y
+					}
 					continue
 				}
 				walk(site.Common().Args[idx], site, d+1, up+1)
@@ -404,7 +421,7 @@ func e19Differences(c *Ctx, v ssa.Value, at ssa.Instruction) []e19Diff {
 		}
 	}
 	walk(v, at, 0, 0)
-	return out
+	return out, cut
 }
 
 // differences of sizes whose order is a value-level invariant (frozen, re-checked shape)
@@ -485,14 +502,20 @@ func ruleErr7(c *Ctx, scope func(*ssa.Function) bool) {
 			// sums and products of sizes are non-negative; a DIFFERENCE of sizes is not:
 			// its sign is a logic invariant that has to be shown (interval, or a
 			// dominating comparison of the two operands) — `len(fields) - len(keys)`
-			diffs := e19Differences(c, v, at)
-			if len(diffs) == 0 {
+			diffs, cut := e19Differences(c, v, at)
+			if len(diffs) == 0 && cut == nil {
 				c.Ok(seq.key(c, e19KeyFn(c, fn), what+" guarded"), c.Pos(at), "built from lengths, counters, library-reported sizes and constants only (no subtraction): carries no input-chosen magnitude and cannot be negative")
 				return
 			}
 			key := seq.key(c, e19KeyFn(c, fn), what+" guarded")
 			if a := e.Eval(v, at, core.KInt); a.Bot || a.Lo >= 0 {
 				c.Ok(key, c.Pos(at), "built from sizes; shown ≥ 0: "+e19FmtAV(a))
+				return
+			}
+			if cut != nil {
+				// the subtractions behind this parameter were not enumerated: only the
+				// interval could have shown the sign, and it did not
+				c.Bad(key, c.Pos(at), fmt.Sprintf("the argument is built from sizes, but the values that reach it through %s (%s) were not all enumerated (helper nesting deeper than two levels, a closure's parameter or a dynamic call site), and its interval %s does not show it ≥ 0 — %s", valueLabel(cut), c.P.InstrPos(e19InstrOf(cut)), e19FmtAV(e.Eval(v, at, core.KInt)), panicText))
 				return
 			}
 			pr := &e19Prover{c: c, e: e, busy: map[e19BusyKey]bool{}}
@@ -509,6 +532,8 @@ func ruleErr7(c *Ctx, scope func(*ssa.Function) bool) {
 				}
 				open = append(open, df)
 			}
+			// a stable order: the callers of a helper are enumerated in call-graph order
+			sort.SliceStable(open, func(i, j int) bool { return c.Pos(open[i].at) < c.Pos(open[j].at) })
 			if len(open) == 0 {
 				c.Ok(key, c.Pos(at), "built from sizes; every subtraction in it has its subtrahend shown ≤ its minuend (interval, dominating comparison, io.Reader contract, or RecordRange's start ≤ end)")
 				return
@@ -532,7 +557,17 @@ func ruleErr7(c *Ctx, scope func(*ssa.Function) bool) {
 			if open[0].at != at {
 				where = " (computed at " + c.Pos(open[0].at) + ")"
 			}
-			c.Bad(key, c.Pos(at), fmt.Sprintf("the argument is a difference of sizes (%s - %s)%s whose sign is not shown: nothing that dominates it orders the two operands (duplicates in a user-written list make the subtrahend larger) — %s", e19ExprLabel(d.X), e19ExprLabel(d.Y), where, panicText))
+			more := ""
+			if len(open) > 1 {
+				// a helper's parameter collects the differences of all its callers: name each
+				var sites []string
+				for _, df := range open[1:] {
+					sites = append(sites, fmt.Sprintf("%s - %s at %s", e19ExprLabel(df.op.X), e19ExprLabel(df.op.Y), c.Pos(df.at)))
+				}
+				sort.Strings(sites)
+				more = fmt.Sprintf("; %d more unshown difference(s) reach the same argument: %s", len(sites), strings.Join(sites, "; "))
+			}
+			c.Bad(key, c.Pos(at), fmt.Sprintf("the argument is a difference of sizes (%s - %s)%s whose sign is not shown: nothing that dominates it orders the two operands (duplicates in a user-written list make the subtrahend larger)%s — %s", e19ExprLabel(d.X), e19ExprLabel(d.Y), where, more, panicText))
 			return
 		}
 		leaf := ""
